@@ -147,6 +147,10 @@ func RunOracles(w *World, spec Spec) error {
 		if err := w.DeepCheck(); err != nil {
 			return wrapViol(err, "after commit and reopen from the ledger: ")
 		}
+		// positional / keyed access must agree with sequential traversal on the reopened containers
+		if err := w.LookupCheck(); err != nil {
+			return wrapViol(err, "after commit and reopen from the ledger: ")
+		}
 		if spec.Has("regs") {
 			if err := OStructIndependent(w, w.DoWalk(), "decoded from registers"); err != nil {
 				return err
@@ -172,14 +176,14 @@ func OStructInRepo(w *World) error {
 		}
 		ti := w.typeInfo(c.TypeID, c.Comp)
 		if c.IsMap {
-			if err := atree.VerifyMap(c.Map, c.SID.Address(), ti, CompareTypeInfo, tu.GetHashInput, true); err != nil {
+			if err := atree.VerifyMap(c.Map, c.SID.Address(), ti, CompareTypeInfo, GetHashInput, true); err != nil {
 				return violf("VerifyMap(c%d): %v", c.Serial, err)
 			}
 			if err := atree.VerifyMapSerialization(c.Map, decMode, encMode, DecodeStorable, DecodeTypeInfo, storableEqual); err != nil {
 				return violf("VerifyMapSerialization(c%d): %v", c.Serial, err)
 			}
 		} else {
-			if err := atree.VerifyArray(c.Arr, c.SID.Address(), ti, CompareTypeInfo, tu.GetHashInput, true); err != nil {
+			if err := atree.VerifyArray(c.Arr, c.SID.Address(), ti, CompareTypeInfo, GetHashInput, true); err != nil {
 				return violf("VerifyArray(c%d): %v", c.Serial, err)
 			}
 			if err := atree.VerifyArraySerialization(c.Arr, decMode, encMode, DecodeStorable, DecodeTypeInfo, storableEqual); err != nil {
@@ -942,9 +946,9 @@ func OFormerParent(w *World, fp *Cont) error {
 		}
 		ti := ww.typeInfo(r.TypeID, r.Comp)
 		if r.IsMap {
-			err = atree.VerifyMap(r.Map, r.SID.Address(), ti, CompareTypeInfo, tu.GetHashInput, true)
+			err = atree.VerifyMap(r.Map, r.SID.Address(), ti, CompareTypeInfo, GetHashInput, true)
 		} else {
-			err = atree.VerifyArray(r.Arr, r.SID.Address(), ti, CompareTypeInfo, tu.GetHashInput, true)
+			err = atree.VerifyArray(r.Arr, r.SID.Address(), ti, CompareTypeInfo, GetHashInput, true)
 		}
 		if err != nil {
 			return violf("former parent's bookkeeping changed by a mutation through a stale handle (%s): %v", when, err)
@@ -980,4 +984,40 @@ func OFormerParent(w *World, fp *Cont) error {
 		return wrapViol(err, "former parent (persisted form): ")
 	}
 	return check(rec, rroot, "persisted form")
+}
+
+// LookupCheck reads every element of every live root by position / key (Get) and compares it with
+// the model.  Get installs callbacks, so this runs only on worlds that are thrown away afterwards.
+func (w *World) LookupCheck() error {
+	for _, c := range w.LiveRoots() {
+		if c.SID.HasTempAddress() && w.Commits > 0 && (c.Arr == nil && c.Map == nil) {
+			continue
+		}
+		if err := w.EnsureHandle(c); err != nil {
+			return err
+		}
+		if c.IsMap {
+			for i, k := range c.Keys {
+				v, err := c.Map.Get(CompareValue, GetHashInput, ToAtree(k))
+				if err != nil {
+					return violf("map c%d Get(%s): %v", c.Serial, MVString(k), err)
+				}
+				if err := w.CmpValue(v, c.Vals[i]); err != nil {
+					return wrapViol(err, fmt.Sprintf("map c%d Get(%s): ", c.Serial, MVString(k)))
+				}
+			}
+			continue
+		}
+		n := len(c.Elems)
+		for i := 0; i < n; i++ {
+			v, err := c.Arr.Get(uint64(i))
+			if err != nil {
+				return violf("array c%d Get(%d): %v", c.Serial, i, err)
+			}
+			if err := w.CmpValue(v, c.Elems[i]); err != nil {
+				return wrapViol(err, fmt.Sprintf("array c%d Get(%d): ", c.Serial, i))
+			}
+		}
+	}
+	return nil
 }
